@@ -164,6 +164,16 @@ def run_case(case: dict) -> dict:
             pm.cob_id, pm.enabled, pm.rtr_allowed = op["cob"], op["enabled"], op["rtr"]
             pm.subscribe()
             ev.append({"e": "recfg", "k": op["k"], "cob": op["cob"], "enabled": op["enabled"], "rtr": op["rtr"]})
+        elif o == "pecho":
+            # a data frame with the producing map's own COB-ID arrives at the producer's network through
+            # its listener (echo of an own frame / a second transmitter): the map takes it if it listens
+            try:
+                net1.listeners[0].on_message_received(
+                    can.Message(arbitration_id=case["pcob"], data=bytes(op["d"]), timestamp=op["ts"],
+                                is_extended_id=case["pcob"] > 0x7FF))
+            except Exception:  # noqa
+                pass
+            ev.append({"e": "pecho", "d": list(op["d"]), "after": B(pmap.data)})
         elif o == "pen":
             pmap.enabled = op["v"]
             ev.append({"e": "pen", "v": op["v"]})
@@ -207,5 +217,5 @@ def run_case(case: dict) -> dict:
             ev.append({"e": "wait", "k": op["k"], "fed": fed, "result": res.get("r", -2), "cons": cons_proj()})
     for i, e in enumerate(ev):
         e["n"] = i + 1
-    return {"ev": ev, "lay": [list(x) for x in lay], "pcob": case["pcob"],
+    return {"ev": ev, "lay": [list(x) for x in lay], "pcob": case["pcob"], "psub": bool(case.get("penabled", True)),
             "cons": [dict(c) for c in cons_cfg]}
